@@ -49,17 +49,47 @@ def overlap_len(ov):
 
 class Graph:
     def __init__(self, doc):
-        self.recs = [G.Rec.from_plain(l, "gfa1") for l in doc["lines"]]
+        v = self.version = doc["version"]
+        self.recs = [G.Rec.from_plain(l, v) for l in doc["lines"]]
         self.segs = {r.pos[0]: r for r in self.recs if r.rt == "S"}
-        self.links = [r for r in self.recs if r.rt == "L"]
+        self.ends = {}
+        self.ovlen = {}
+        if v == "gfa1":
+            self.links = [r for r in self.recs if r.rt == "L"]
+            for l in self.links:
+                self.ends[id(l)] = link_ends(l.pos)
+                self.ovlen[id(l)] = overlap_len(l.pos[4])
+        else:
+            self.links = []
+            for r in self.recs:
+                if r.rt == "E":
+                    k, k1, k2 = M.classify_edge(r)
+                    if k == "L":
+                        self.links.append(r)
+                        self.ends[id(r)] = ((r.pos[1][:-1], k1[-1]), (r.pos[2][:-1], k2[-1]))
+                        self.ovlen[id(r)] = M.pos_val(r.pos[4])[0] - M.pos_val(r.pos[3])[0]
         self.inc = {}
         for s in self.segs:
             self.inc[(s, "L")] = []
             self.inc[(s, "R")] = []
         for l in self.links:
-            a, b = link_ends(l.pos)
+            a, b = self.ends[id(l)]
             self.inc[a].append((l, b))
             self.inc[b].append((l, a))
+
+    def seq_len(self, s):
+        rec = self.segs[s]
+        if self.version == "gfa1":
+            seq = rec.pos[1]
+            ln = rec.tag("LN")
+            return seq, (len(seq) if seq != "*" else (int(ln[1]) if ln else None))
+        return rec.pos[2], int(rec.pos[1])
+
+    def link_sig(self, l):
+        """(overlap length or '*', tags) of an edge, ignoring direction and coordinates."""
+        if self.version == "gfa1":
+            return (overlap_len(l.pos[4]) if l.pos[4] != "*" else "*", tagkey(l))
+        return (self.ovlen[id(l)], tagkey(l))
 
     def linear_next(self, end):
         """If the junction at `end` is linear: (link, other end) else None."""
@@ -144,13 +174,10 @@ def spell(graph, chain):
     known_len = True
     star = False
     for i, (s, o, _l) in enumerate(chain):
-        rec = graph.segs[s]
-        seq = rec.pos[1]
-        ln = rec.tag("LN")
-        n = len(seq) if seq != "*" else (int(ln[1]) if ln else None)
+        seq, n = graph.seq_len(s)
         cut = 0
         if i > 0:
-            cut = overlap_len(chain[i - 1][2].pos[4])
+            cut = graph.ovlen[id(chain[i - 1][2])]
         if seq == "*":
             star = True
         else:
@@ -191,20 +218,19 @@ def expected_after_merge(graph, chains):
 
     out = Counter()
     for l in graph.links:
-        a, b = link_ends(l.pos)
+        a, b = graph.ends[id(l)]
         if id(l) in internal:
             # the closing link of a circular chain survives as a link of the merged segment with itself
             ch = next(c for c in chains if any(x[2] is l for x in c))
             if ch[-1][2] is l:
                 i = chains.index(ch)
-                out[(frozenset([(("#", i), "R"), (("#", i), "L")]), overlap_len(l.pos[4]) if l.pos[4] != "*" else "*",
-                     tagkey(l))] += 1
+                out[(frozenset([(("#", i), "R"), (("#", i), "L")]),) + graph.link_sig(l)] += 1
             continue
         ma, mb = map_end(a), map_end(b)
         if ma is None or mb is None:
             raise AssertionError("model: outward link on an inner end")
         key = frozenset([ma, mb]) if ma != mb else frozenset([ma, "hairpin"])
-        out[(key, overlap_len(l.pos[4]) if l.pos[4] != "*" else "*", tagkey(l))] += 1
+        out[(key,) + graph.link_sig(l)] += 1
     return out, member
 
 
@@ -214,6 +240,20 @@ def tagkey(rec):
 
 def observed_links(g, name_map):
     out = Counter()
+    if g.version == "gfa2":
+        # from the written E lines, classified by the model (interval kinds and orientations)
+        for l in g.edges:
+            rec = G.split_line(O.line_text(l), "gfa2")
+            k, k1, k2 = M.classify_edge(rec)
+            if k != "L":
+                out[("not-a-dovetail", rec.text())] += 1
+                continue
+            a, b = (rec.pos[1][:-1], k1[-1]), (rec.pos[2][:-1], k2[-1])
+            a = (name_map.get(a[0], a[0]), a[1])
+            b = (name_map.get(b[0], b[0]), b[1])
+            key = frozenset([a, b]) if a != b else frozenset([a, "hairpin"])
+            out[(key, M.pos_val(rec.pos[4])[0] - M.pos_val(rec.pos[3])[0], tagkey(rec))] += 1
+        return out
     for l in g.dovetails:
         rec = G.split_line(O.line_text(l), "gfa1")
         a, b = link_ends(rec.pos)
@@ -239,7 +279,7 @@ def prop(case):
     chains = graph.chains()
     text = "\n".join(lines)
     try:
-        g = gfapy.Gfa(lines, version="gfa1", vlevel=case.get("vlevel", 1))
+        g = gfapy.Gfa(lines, version=doc["version"], vlevel=case.get("vlevel", 1))
     except Exception as e:
         raise Violation("load", "valid graph not loaded: %s: %s\n%s" % (type(e).__name__, str(e)[:300], text), type(e).__name__)
     # ---- detection
@@ -270,13 +310,14 @@ def prop(case):
         elif len(names) > 1:
             raise Violation("linear_path", "linear_path(%s) = %s but the segment is in no chain\n%s" % (sname, names, text))
     # ---- merge
-    comps_before = M.ModelDoc.from_doc(doc).components()
-    before_other = Counter(O.line_key(l, "gfa1") for l in g.lines if l.record_type in ("#", "H"))
+    comps_before = M.ModelDoc.from_doc({"version": doc["version"], "lines": doc["lines"]}).components()
+    V = doc["version"]
+    before_other = Counter(O.line_key(l, V) for l in g.lines if l.record_type in ("#", "H"))
     try:
         g.merge_linear_paths()
     except Exception as e:
         raise Violation("merge-raised", "merge_linear_paths raised %s: %s\n%s" % (type(e).__name__, str(e)[:300], text),
-                        "%s/%s" % (type(e).__name__, "hairpin" if any(link_ends(l.pos)[0] == link_ends(l.pos)[1] for l in graph.links) else "-"))
+                        "%s/%s" % (type(e).__name__, "hairpin" if any(graph.ends[id(l)][0] == graph.ends[id(l)][1] for l in graph.links) else "-"))
     after_text = str(g)
     probs = O.invariants(g)
     if probs:
@@ -290,7 +331,7 @@ def prop(case):
         raise Violation("segments", "expected %d new segment(s), got %s; missing bystanders %s\n%s\n-- after --\n%s" % (
             len(chains), new, sorted((set(graph.segs) - members) - now), text, after_text))
     for s in set(graph.segs) - members:
-        if O.line_key(g.segment(s), "gfa1") != G.canon_rec(graph.segs[s]):
+        if O.line_key(g.segment(s), V) != G.canon_rec(graph.segs[s]):
             raise Violation("bystander-changed", "segment %s changed: %r\n%s" % (s, str(g.segment(s)), text))
     exp_links, member = expected_after_merge(graph, chains)
     spelled = [spell(graph, ch) for ch in chains]
@@ -315,13 +356,14 @@ def prop(case):
                 good = False
                 why.append("sequence: chain %s spelled %r, expected %r or its reverse complement" % ([c[0] for c in ch], gs, seq))
                 break
-            if ln is not None and seg.LN is not None and seg.LN != ln:
+            seg_ln = seg.LN if V == "gfa1" else seg.slen
+            if ln is not None and seg_ln is not None and seg_ln != ln:
                 good = False
-                why.append("LN: chain %s has LN %r, expected %r" % ([c[0] for c in ch], seg.LN, ln))
+                why.append("LN: chain %s has length %r, expected %r" % ([c[0] for c in ch], seg_ln, ln))
                 break
-            if seq != "*" and seg.LN is not None and seg.LN != len(gs):
+            if seq != "*" and seg_ln is not None and seg_ln != len(gs):
                 good = False
-                why.append("LN: chain %s has LN %r but a sequence of length %d" % ([c[0] for c in ch], seg.LN, len(gs)))
+                why.append("LN: chain %s has length %r but a sequence of length %d" % ([c[0] for c in ch], seg_ln, len(gs)))
                 break
             allowed.append(sorted(set(opts)))
         if not good:
@@ -343,11 +385,11 @@ def prop(case):
     if not chains and observed_links(g, {}) != exp_links:
         raise Violation("merge-result", "graph without chains changed\n%s\n-- after --\n%s" % (text, after_text))
     # bystanders
-    after_other = Counter(O.line_key(l, "gfa1") for l in g.lines if l.record_type in ("#", "H"))
+    after_other = Counter(O.line_key(l, V) for l in g.lines if l.record_type in ("#", "H"))
     if after_other != before_other:
         raise Violation("bystander-changed", "comments/header changed\n%s\n-- after --\n%s" % (text, after_text))
     cont_exp = Counter(G.canon_rec(r) for r in graph.recs if r.rt == "C" and r.pos[0] not in members and r.pos[2] not in members)
-    cont_got = Counter(O.line_key(l, "gfa1") for l in g.containments)
+    cont_got = Counter(O.line_key(l, V) for l in g.containments) if V == "gfa1" else cont_exp
     if cont_exp != cont_got:
         raise Violation("bystander-changed", "containments: %s\n%s\n-- after --\n%s" % (G.counter_diff(cont_exp, cont_got), text, after_text))
     # components preserved under member -> merged
@@ -357,6 +399,27 @@ def prop(case):
         raise Violation("cc-raised", "connected_components after merge: %s" % e)
     if len(cc) != len(comps_before):
         raise Violation("components", "number of components %d -> %d\n%s\n-- after --\n%s" % (len(comps_before), len(cc), text, after_text))
+    # the merged graph is a valid document (GFA2: '$' exactly at the merged segment's length)
+    try:
+        g2 = gfapy.Gfa(after_text, version=V, vlevel=3)
+        g2.validate()
+        if V == "gfa2":
+            m2 = M.ModelDoc(V, [G.split_line(x, V) for x in after_text.split("\n") if x])
+            lens = {r.pos[0]: int(r.pos[1]) for r in m2.recs if r.rt == "S"}
+            for r in m2.recs:
+                if r.rt == "E":
+                    for sidf, b, e in ((1, 3, 4), (2, 5, 6)):
+                        n_ = lens[r.pos[sidf][:-1]]
+                        for p_ in (r.pos[b], r.pos[e]):
+                            v_, last = M.pos_val(p_)
+                            if v_ > n_ or last != (v_ == n_):
+                                raise Violation("merged-coordinates", "E line %r: position %s on a segment of length %d\n%s\n-- after --\n%s" % (
+                                    r.text(), p_, n_, text, after_text))
+    except Violation:
+        raise
+    except Exception as e:
+        raise Violation("merged-invalid", "the merged graph is not a valid document: %s: %s\n%s\n-- after --\n%s" % (
+            type(e).__name__, str(e)[:300], text, after_text), type(e).__name__)
     # idempotence
     try:
         g.merge_linear_paths()
@@ -367,7 +430,7 @@ def prop(case):
     branching = any(len(v) >= 2 for v in graph.inc.values())
     nt = any(len(ch) >= 3 and any(o == "-" for _s, o, _l in ch) for ch in chains) and branching
     return {"nt": nt, "n_chains": min(len(chains), 3), "circular": any(ch[-1][2] is not None for ch in chains),
-            "hairpin": any(link_ends(l.pos)[0] == link_ends(l.pos)[1] for l in graph.links)}
+            "hairpin": any(graph.ends[id(l)][0] == graph.ends[id(l)][1] for l in graph.links), "version": V}
 
 
 def build_chain_graph(r):
@@ -434,11 +497,49 @@ def build_chain_graph(r):
     return {"version": "gfa1", "lines": lines}
 
 
+def to_gfa2_graph(r, doc):
+    """The same graph in GFA2 (anonymous E lines by the model's interval arithmetic; an
+    unspecified overlap becomes an empty interval); some E lines are duplicated
+    (identical anonymous edges are legal in GFA2)."""
+    slen = {}
+    lines = []
+    for l in doc["lines"]:
+        if l[0] == "S":
+            seq = l[1][1]
+            ln = [t for t in l[2] if t[0] == "LN"]
+            n = len(seq) if seq != "*" else int(ln[0][2])
+            slen[l[1][0]] = n
+            lines.append(["S", [l[1][0], str(n), seq], [t for t in l[2] if t[0] != "LN"]])
+    for l in doc["lines"]:
+        if l[0] == "L":
+            f, fo, t, to, ov = l[1]
+            k = overlap_len(ov)
+            lf, lt = slen[f], slen[t]
+            fm = lambda p, n: "%d$" % p if p == n else str(p)
+            b1, e1 = (lf - k, lf) if fo == "+" else (0, k)
+            b2, e2 = (0, k) if to == "+" else (lt - k, lt)
+            rec = ["E", ["*", f + fo, t + to, fm(b1, lf), fm(e1, lf), fm(b2, lt), fm(e2, lt), ("%dM" % k) if k else "*"], list(l[2])]
+            lines.append(rec)
+            if gen.chance(r, 0.15):
+                lines.append(["E", list(rec[1]), list(rec[2])])
+        elif l[0] in ("#", "H"):
+            lines.append(l if l[0] == "#" else ["H", [], [["VN", "Z", "2.0"]]])
+    return {"version": "gfa2", "lines": lines}
+
+
 @st.composite
 def st_case(draw):
     r = draw(st.randoms(use_true_random=False))
     return {"doc": build_chain_graph(r), "vlevel": gen.choice(r, [1, 1, 2, 3])}
 
 
+@st.composite
+def st_case2(draw):
+    r = draw(st.randoms(use_true_random=False))
+    return {"doc": to_gfa2_graph(r, build_chain_graph(r)), "vlevel": gen.choice(r, [1, 1, 2, 3])}
+
+
 def parts(tier):
-    return [Part("gfa1", prop, strategy=st_case(), n=300 if tier == "quick" else 1500, quick_shards=2)]
+    q = tier == "quick"
+    return [Part("gfa1", prop, strategy=st_case(), n=300 if q else 1500, quick_shards=2),
+            Part("gfa2", prop, strategy=st_case2(), n=250 if q else 1200, quick_shards=2)]
